@@ -241,8 +241,7 @@ example : inDom (.sphere 1 : Space ℝ) (.ccons (.so2 0) (.ccons (.rv [0]) .cnil
 symmetric, triangle inequality, zero exactly between states with the same unit vector, and positive w.r.t. the code's
 own `equalStates` whenever one of the states is off the poles.
 `_partial` w.r.t. the property: (i) at the poles many (θ, φ) share one point, so distinct-by-`equalStates` states are at
-distance 0 (`sphere_pole_distance_zero`, F12 first half); (ii) the bound is `π·r`, not the reported extent `2π`
-(`sphere_extent_exceeded`); (iii) the code evaluates the formula in float32 — rounding is a finding, not a theorem. -/
+distance 0 (`sphere_pole_distance_zero`, F12 first half); (ii) [fixed by 3ad69d0eb: the reported extent is now `π·r`, `sphere_extent_law`]; (iii) the code evaluates the formula in float32 — rounding is a finding, not a theorem. -/
 theorem sphere_real_metric_partial (r : ℝ) (hr : 0 < r) :
     (∀ a b, inDom (.sphere r) a → inDom (.sphere r) b → 0 ≤ SpaceDist.dist (.sphere r) a b) ∧
     (∀ a, inDom (.sphere r) a → SpaceDist.dist (.sphere r) a a = 0) ∧
@@ -270,15 +269,22 @@ theorem sphere_pole_distance_zero (r t1 t2 : ℝ) :
   simp only [SpaceDist.dist]
   exact Seam.sphere_pole_distance_zero r t1 t2
 
-/-- … and the distance between the poles, `π·r`, exceeds the reported extent `2π` as soon as `r > 2`. -/
-theorem sphere_extent_exceeded (r : ℝ) (hr : 2 < r) : ¬ ExtentLaw (.sphere r : Space ℝ) := by
-  intro h
-  have h0 : so2InBounds (0 : ℝ) = true := by rw [so2InBounds_real]; constructor <;> linarith [Real.pi_pos]
-  have := h (.ccons (.so2 0) (.ccons (.rv [0]) .cnil)) (.ccons (.so2 0) (.ccons (.rv [Real.pi]) .cnil))
-    ⟨h0, le_refl _, Real.pi_pos.le⟩ ⟨h0, Real.pi_pos.le, le_refl _⟩
-  rw [Seam.maxExtent_sphere] at this
-  simp only [SpaceDist.dist] at this
-  exact absurd this (not_le.2 (Seam.sphere_extent_exceeded r hr))
+/-- since the fix 3ad69d0eb (F12's extent half) the reported extent is `π·r`, the diameter of the sphere under its own
+(real) distance: the extent law holds. -/
+theorem sphere_extent_law (r : ℝ) (hr : 0 ≤ r) : ExtentLaw (.sphere r : Space ℝ) := by
+  intro a b ha hb
+  rw [Seam.maxExtent_sphere]
+  exact sphere_le_pi_r' hr a b ha hb
+example : (0:ℝ) ≤ 3 := by norm_num
+
+/-- why the old extent was wrong: the inherited compound extent `π + π` (what `getMaximumExtent()` returned before
+3ad69d0eb) is exceeded by the pole-to-pole distance `π·r` as soon as `r > 2`. -/
+theorem sphere_old_extent_exceeded (r : ℝ) (hr : 2 < r) :
+    cmp2 Real.pi (rvExtent [0] [Real.pi]) <
+      SpaceDist.dist (.sphere r : Space ℝ) (.ccons (.so2 0) (.ccons (.rv [0]) .cnil))
+        (.ccons (.so2 0) (.ccons (.rv [Real.pi]) .cnil)) := by
+  simp only [SpaceDist.dist]
+  exact Seam.sphere_extent_exceeded r hr
 example : (2:ℝ) < 3 := by norm_num
 
 /-! ## compounds and wrappers -/
